@@ -56,19 +56,19 @@ META = {
                  "collections of the real MMTk under all collecting plans validated with TLC "
                  "(Trace_RefProc.tla EXTENDS HeapTrace.tla)",
 }
-PREFIXES = ("C06:", "C01:")
+PREFIXES = ("C06:", "C01:", "C02:")
 PLANS = [p for p in hc.PLANS if p != "NoGC"]
 GEN = ("GenCopy", "GenImmix", "StickyImmix")
 MUTANTS = ["enqueue_twice", "soft_not_retained", "final_not_kept_alive", "ready_lost",
            "phantom_before_final", "referent_not_forwarded", "finalizable_not_forwarded",
            "clear_not_enqueued", "dead_ref_enqueued", "dead_ref_not_cleared"]
-QUICK_MUTANTS = ["enqueue_twice", "soft_not_retained", "final_not_kept_alive", "ready_lost",
+QUICK_MUTANTS = ["enqueue_twice", "soft_not_retained", "final_not_kept_alive",
                  "phantom_before_final"]
 
 # events of this family that the process trace is projected on, besides HeapTrace's
 hc.HEAP_EVENTS.update({"SetReferent", "GetReferent", "AddCandidate", "AddFinalizer", "PopFinalized",
                        "GetAllFinalizers", "GetFinalizersFor", "ClearReferent", "EnqueueRefs",
-                       "RefCleanup", "RefCleanupEnd"})
+                       "RefCleanup", "RefCleanupEnd", "ConcurrentWindow"})
 
 
 # Recorded defect (KNOWN_FINDINGS.json, C06): in a nursery collection of a generational plan the
@@ -77,14 +77,21 @@ hc.HEAP_EVENTS.update({"SetReferent", "GetReferent", "AddCandidate", "AddFinaliz
 # finalization treat it as dead. Ordinary runs of the generational plans do not use NonMoving
 # semantics; a dedicated probe run exercises them.
 NONMOVING_KEY = "generational-nursery+NonMoving:is_live"
+# Recorded defect (KNOWN_FINDINGS.json, C06): ConcurrentImmix does not treat the finalizer lists as part
+# of the snapshot; an object handed out by get_finalized_object / get_all_finalizers /
+# get_finalizers_for while concurrent marking is in progress is reclaimed by the final-mark pause
+# although the VM holds it. Ordinary runs do not call these functions inside the marking window
+# (generator constraint in modes_refs.rs); the probe run (--concpop) does.
+CONCPOP_KEY = "ConcurrentImmix:finalizer-handed-out-during-concurrent-marking"
 
 
 def _run(plan, name, programs, ops=150, heap=8, feats=(), workers=3, mutators=2, opts="", seed_off=0,
-         release=False, sems="0,0,0,0,2,6", known_key=None):
+         release=False, sems="0,0,0,0,2,6", known_key=None, extra=()):
     if plan in GEN and known_key is None:
         sems = ",".join(x for x in sems.split(",") if x != "6") or "0"
     return hc.Run(plan, known_key=known_key, feats=feats, name=name, heap=heap, workers=workers, mutators=mutators,
-                  programs=programs, ops=ops, sems=sems, opts=opts, extra=["--mode", "refs"],
+                  programs=programs, ops=ops, sems=sems, opts=opts,
+                  extra=["--mode", "refs"] + list(extra),
                   seed_off=seed_off, release=release)
 
 
@@ -94,26 +101,33 @@ def matrix(tier):
         for i, p in enumerate(PLANS):
             runs.append(_run(p, "refs", 5, ops=150, seed_off=i))
         runs.append(_run("GenImmix", "nonmoving-probe", 3, sems="0,6,6", known_key=NONMOVING_KEY))
+        runs.append(_run("ConcurrentImmix", "concpop-probe", 8, ops=200, heap=6, seed_off=50,
+                         known_key=CONCPOP_KEY, extra=["--concpop"]))
         return runs
     for i, p in enumerate(PLANS):
-        runs.append(_run(p, "refs", 40, ops=200, seed_off=i))
-        runs.append(_run(p, "refs-w1", 25, ops=200, workers=1, mutators=1, heap=6, seed_off=20 + i))
-        runs.append(_run(p, "refs-vo", 30, ops=200, feats=["vo_bit"], workers=4, heap=10,
-                         seed_off=40 + i))
-        runs.append(_run(p, "refs-rel", 40, ops=250, release=True, workers=4, mutators=3,
+        runs.append(_run(p, "refs", 25, ops=200, seed_off=i))
+        runs.append(_run(p, "refs-w1", 15, ops=200, workers=1, mutators=1, heap=6, seed_off=20 + i))
+        if p != "ConcurrentImmix":
+            # the vo_bit walker calls MMTK::enumerate_objects inside the pause; that is outside the
+            # API contract while a concurrent collection is in progress (LOS asserts)
+            runs.append(_run(p, "refs-vo", 15, ops=200, feats=["vo_bit"], workers=4, heap=10,
+                             seed_off=40 + i))
+        runs.append(_run(p, "refs-rel", 30, ops=250, release=True, workers=4, mutators=3,
                          seed_off=60 + i))
-        runs.append(_run(p, "refs-long", 8, ops=900, heap=12, seed_off=80 + i))
+        runs.append(_run(p, "refs-long", 5, ops=800, heap=12, seed_off=80 + i))
     for i, p in enumerate(["Immix", "GenImmix", "StickyImmix", "ConcurrentImmix"]):
-        runs.append(_run(p, "refs-defrag", 25, ops=200, seed_off=100 + i,
+        runs.append(_run(p, "refs-defrag", 15, ops=200, seed_off=100 + i,
                          opts="immix_always_defrag=true,immix_defrag_every_block=true"))
-        runs.append(_run(p, "refs-sb", 20, ops=200, feats=["immix_smaller_block"], seed_off=110 + i))
-    runs.append(_run("StickyImmix", "refs-sxnm", 25, ops=200, seed_off=120,
+        runs.append(_run(p, "refs-sb", 12, ops=200, feats=["immix_smaller_block"], seed_off=110 + i))
+    runs.append(_run("StickyImmix", "refs-sxnm", 15, ops=200, seed_off=120,
                      feats=["sticky_immix_non_moving_nursery"]))
     for i, p in enumerate(GEN):
-        runs.append(_run(p, "refs-fullsys", 20, ops=200, seed_off=130 + i,
+        runs.append(_run(p, "refs-fullsys", 12, ops=200, seed_off=130 + i,
                          opts="full_heap_system_gc=true"))
-        runs.append(_run(p, "nonmoving-probe", 6, sems="0,6,6", seed_off=140 + i,
+        runs.append(_run(p, "nonmoving-probe", 4, sems="0,6,6", seed_off=140 + i,
                          known_key=NONMOVING_KEY))
+    runs.append(_run("ConcurrentImmix", "concpop-probe", 40, ops=250, heap=6, seed_off=150,
+                     known_key=CONCPOP_KEY, extra=["--concpop"]))
     return runs
 
 
@@ -220,7 +234,7 @@ def run(ctx):
     design_mc(ctx)
     runs = matrix(ctx.tier)
     st = hc.execute(ctx, runs, PREFIXES, spec=(TRACE_SPEC[0], TRACE_SPEC[1], SD),
-                    par_run=5, par_tlc=5)
+                    par_run=6, par_tlc=6)
     st["refproc"] = _ref_stats(ctx, runs)
     ctx.cov.update({"driver": st})
     ctx.cov["plans"] = PLANS
